@@ -294,6 +294,11 @@ class Interp:
         if e.id in g: return g[e.id]
         if e.id in PY_BUILTINS: return PY_BUILTINS[e.id]
         if e.id in EXC: return EXC[e.id]
+        import builtins as _bi
+        if hasattr(_bi, e.id):
+            # a genuine Python builtin the engine has no model of (sorted, divmod, an exception class ...): engine limitation, NOT a NameError of the program
+            # (found by the conformance check: `sorted(...)` was reported as an undefined name)
+            raise Unsupported(f"Python builtin '{e.id}' has no model (engine limitation, not a program error)")
         raise PyRaise(EXC["NameError"], f"name '{e.id}' is not defined")
     def ev_Tuple(self, e, env, mod):
         out = []
